@@ -398,13 +398,102 @@ def run_legal(case, emb, pb):
     return {"pre": pre, "post": post, "d1": d1, "d2": d2, "accepted": acc, "back": obs[0] if acc else NO_NET, "why": why}
 
 
-RUNNERS = {"die": run_die, "alloc": run_alloc, "netgen": run_netgen, "floorset_fpef": run_floorset,
+# ----------------------------------------------------------------------------------------- same-path histories
+def run_store(case, emb, pb):
+    """One same-path history inside this process: the real producer writes the current object to the named path,
+    the object changes, the path is written again, the real reader reads it.  Every producer is used through its
+    own file-name interface.  -> the operations with what every read observed"""
+    from frame.allocation.allocation import Allocation
+    from frame.die.die import Die
+    from frame.netlist.netlist import Netlist
+    p = case["producer"]
+    tmp = tempfile.mkdtemp(prefix="st")
+    paths = {f: os.path.join(tmp, f"{f}.yaml") for f in ("P", "Q")}
+    cur = 0
+    out = []
+
+    def write(path):
+        o = case["objs"][cur]
+        fresh()
+        if p == "die":
+            src = as_file(die_text(o, emb))
+            try:
+                Die(src).write_yaml(path)
+            finally:
+                os.remove(src)
+        elif p == "alloc":
+            src = as_file(alloc_text(o, emb))
+            try:
+                Allocation(src).write_yaml(path)
+            finally:
+                os.remove(src)
+        elif p == "netgen":
+            from tools.netgen import netgen
+            with contextlib.redirect_stdout(io.StringIO()):
+                netgen.main("netgen", ["--type", o[0], "--size"] + [str(v) for v in o[1]] + ["-o", path])
+        elif p == "floorset_fpef":
+            from tools.floorset_parser.floor_set_manager.manager import FloorSetInstance
+            FloorSetInstance(floorset_data(o, emb, 0), None, False).write_yaml_FPEF(path)
+        elif p == "rect_netlist":
+            with open(path, "w") as f:             # the allocation the previous stage writes for the rect stage
+                f.write(alloc_text(o, emb))
+        elif p == "rect_solution":
+            from tools.rect.rect_io import solution_to_netlist
+            src = as_file(netlist_text(o["net"], emb))
+            try:
+                n = Netlist(src)
+            finally:
+                os.remove(src)
+            result = {name: [tuple(float(v) for v in emb.rect(t)) for t in rects] for name, rects in o["result"]}
+            with open(path, "w") as f:             # as rect.py does with --file
+                f.write(solution_to_netlist(n, result))
+        else:
+            raise MachineryError(f"no same-path binding for {p}")
+
+    def read(path):
+        fresh()
+        try:
+            if p == "die":
+                return 1, obs_die(Die(path), pb), ""
+            if p == "alloc":
+                return 1, obs_alloc(Allocation(path), pb), ""
+            if p == "rect_netlist":
+                from tools.rect.rect_io import get_netlist
+                return 1, obs_netlist(get_netlist(None, path), pb), ""
+            return 1, obs_netlist(Netlist(path), pb), ""
+        except Exception as e:
+            empty = NO_DIE if p == "die" else [] if p == "alloc" else NO_NET
+            return 0, empty, f"{type(e).__name__}: {e}"[:200]
+
+    try:
+        for op in case["ops"]:
+            if op["op"] == "write":
+                write(paths[op["path"]])
+                out.append({"op": "write", "path": op["path"]})
+            elif op["op"] == "change":
+                cur = (cur + 1) % len(case["objs"])
+                out.append({"op": "change", "to": cur + 1})
+            else:
+                acc, back, why = read(paths[op["path"]])
+                out.append({"op": "read", "path": op["path"], "accepted": acc, "back": back, "why": why})
+    finally:
+        shutil.rmtree(tmp, ignore_errors=True)
+    return {"store": out}
+
+
+RUNNERS = {"store": run_store, "die": run_die, "alloc": run_alloc, "netgen": run_netgen, "floorset_fpef": run_floorset,
            "floorset_dief": run_floorset, "rect_netlist": run_rect_netlist, "rect_solution": run_rect_solution,
            "legal": run_legal}
 
 
 def embeddings_for(case, k):
     p = case["prod"]
+    if p == "store":
+        p = case["producer"]
+        if p == "netgen":
+            return ["flt"]
+        pool = ORIGIN0 if p in ("die", "floorset_fpef") else ALL
+        return [pool[k % len(pool)]]
     if p == "netgen":
         return ["flt"]                                # the generator has no coordinates (every area is 1)
     if p in ("die", "floorset_fpef", "floorset_dief"):
@@ -548,18 +637,33 @@ def decide(ctx: Ctx, cases: list[dict]):
     stats = ctx.extra.setdefault("observed", {})
     results = run_cases(run_case, cases, nproc=16, case_timeout=300)
     events = []          # (event for TLC, case, embeddings)
+    stores = []          # (store trace for TLC, case, embeddings, operations with the readers' messages)
     for c, (st, val) in zip(cases, results):
         if st != "ok":
-            ctx.violation("no_result", {"case": {k: c[k] for k in ("prod", "src", "op")}, "status": st}, {"status": st},
-                          {"prod": c["prod"], "op": c["op"]})
+            ctx.violation("no_result", {"case": {k: c[k] for k in ("prod", "src", "op", "producer", "ops") if k in c}, "status": st},
+                          {"status": st}, {"prod": c["prod"], "op": c.get("op", "same-path")})
             continue
         for o, embs in val:
+            if "store" in o:
+                reads = [x for x in o["store"] if x["op"] == "read"]
+                ctx.count(n=len(o["store"]) * len(embs))
+                s = stats.setdefault("store:" + c["producer"], {"runs": 0, "distinct": 0, "accepted": 0})
+                s["runs"] += len(embs)
+                s["distinct"] += 1
+                s["accepted"] += all(x["accepted"] for x in reads)
+                stores.append(({"kind": "store", "producer": c["producer"], "objs": c["objs"],
+                                "events": [{k: v for k, v in x.items() if k != "why"} for x in o["store"]]}, c, embs, o["store"]))
+                continue
             ctx.count(n=2 * len(embs))
             s = stats.setdefault(c["prod"], {"runs": 0, "distinct": 0, "accepted": 0})
             s["runs"] += len(embs)
             if "exc" in o:
-                ctx.violation("raises", {"case": {k: c[k] for k in ("prod", "src", "op")}, "embeddings": embs}, o,
-                              features_of(c, o, embs))
+                if c["prod"] == "store":
+                    ctx.violation("raises", {"case": {k: c[k] for k in ("prod", "producer", "objs", "ops")}, "embeddings": embs}, o,
+                                  {"prod": "store", "producer": c["producer"], "op": "same-path", "embedding": embs[0]})
+                else:
+                    ctx.violation("raises", {"case": {k: c[k] for k in ("prod", "src", "op")}, "embeddings": embs}, o,
+                                  features_of(c, o, embs))
                 continue
             s["distinct"] += 1
             s["accepted"] += o["accepted"]
@@ -568,10 +672,20 @@ def decide(ctx: Ctx, cases: list[dict]):
             events.append((ev, c, embs, o.get("why", "")))
     traces = []
     for i in range(0, len(events), EVENTS_PER_TRACE):
-        t = {"events": [e[0] for e in events[i:i + EVENTS_PER_TRACE]]}
+        t = {"kind": "batch", "events": [e[0] for e in events[i:i + EVENTS_PER_TRACE]]}
         t["id"] = f"{i}-{digest(t)}"
         traces.append((t, events[i:i + EVENTS_PER_TRACE]))
-    verdicts = tlc.validate_traces(ctx, "DocsTrace", "DocsTrace", [t for t, _e in traces], chunk=1500)
+    for k, (t, c, embs, ops) in enumerate(stores):
+        t["id"] = f"s{k}-{digest(t)}"
+    verdicts = tlc.validate_traces(ctx, "DocsTrace", "DocsTrace", [t for t, _e in traces] + [x[0] for x in stores], chunk=1500)
+    for t, c, embs, ops in stores:
+        v = verdicts[t["id"]]
+        ctx.count(digest([c["producer"], c["ops"]]), nontrivial=True, n=0)
+        for (l, clause) in v["fails"]:
+            op = ops[l - 1]
+            ctx.violation(clause, {"case": {k: c[k] for k in ("prod", "producer", "objs", "ops")}, "embeddings": embs, "read": l},
+                          {"accepted": op["accepted"], "back": op["back"], "reader_said": op.get("why", "")},
+                          {"prod": "store", "producer": c["producer"], "op": "same-path", "embedding": embs[0]})
     for t, evs in traces:
         v = verdicts[t["id"]]
         for ev, c, embs, why in evs:
@@ -598,7 +712,13 @@ def decide(ctx: Ctx, cases: list[dict]):
 
 def prepare(cases, nemb):
     out = []
+    seen_store = set()
     for k, c in enumerate(cases):
+        if c["prod"] == "store":
+            key = json.dumps([c["producer"], c["ops"]])
+            if key in seen_store:
+                continue
+            seen_store.add(key)
         if c["prod"] == "netgen":
             src = c["src"]
             # outside the quantifier: sizes for which the topology is not defined (Docs!Defined, InvDefinedSizes)
@@ -620,13 +740,14 @@ def run(ctx: Ctx) -> int:
         decide(ctx, [c])
         return ctx.finish("model_checking", "replay of one recorded case")
     tier = ctx.tier
-    tlc.model_check(ctx, "Docs", f"Docs_mc_{tier}", vacuity_ignore=("Emit",))
+    tlc.model_check(ctx, "Docs", f"Docs_mc_{tier}", vacuity_ignore=("Emit", "EmitStore"))
     printed = tlc.generate(ctx, "Docs", f"Docs_gen_{tier}")
     rng = random.Random(ctx.seed * 1000003 + 19)
     cases = prepare(printed, 2 if tier == "quick" else 3) + prepare(random_cases(rng, 120 if tier == "quick" else 900), 2)
     decide(ctx, cases)
     st = ctx.extra["observed"]
-    missing = [p for p in RUNNERS if st.get(p, {}).get("accepted", 0) == 0]
+    missing = [p for p in RUNNERS if p != "store" and st.get(p, {}).get("accepted", 0) == 0]
+    missing += [p for p in ("die", "alloc", "netgen", "floorset_fpef", "rect_netlist", "rect_solution") if st.get("store:" + p, {}).get("accepted", 0) == 0]
     if missing:
         raise MachineryError(f"vacuous run: no accepted document for {missing}: {st}")
     ctx.extra["embeddings"] = ALL
@@ -639,6 +760,8 @@ def run(ctx: Ctx) -> int:
         "observed numbers are compared in 1/1000 lattice units (1/1000 for ratios and weights); centroids and areas within one such unit",
         "the reader runs as in a fresh process (Rectangle tolerances undefined before every load)",
         "generator sizes outside Defined (ring-star 1, one-net 1) are outside the quantifier and are not run",
+        "same-path histories (write, read, change the object, write again, read again; 1 path quick, 2 paths thorough) run inside one process "
+        "through the file-name interface of every producer that has one (die, allocation, netgen -o, FloorSet FPEF, the rect stage's input and output files)",
         "FloorSet: density None (weights unscaled), positive weights, terminals_as_modules False, pins spanning a die of positive size",
         "legaliser models are built as the stage builds them and not solved: the emitted netlist carries the initial rectangles",
         "same design = names, kinds (hard, fixed, terminal, flip), total area of soft modules, centre of modules without rectangles, "
